@@ -10,8 +10,42 @@ import PhysisModel.Model.Pbd
 import PhysisModel.Spec.Pbd
 import PhysisModel.Model.Sklb
 import PhysisModel.Spec.HavokTag
+import PhysisModel.Base.Mutate
+/-!
+Driver of C16 (case grammar: `harness/src/c16.rs`).
+
+Family `mut`: `mut <seed> <k> <case>` for the ops whose input is one encoded file (`cmp`, `tera_parse`,
+`layer_parse`, `pbd`, `pbdl`, `skel`, `skelstd`): the case is parsed and encoded exactly as for the plain
+op, `k` bytes of the file are damaged (`Base/Mutate.lean`), the executable model of the code runs on the
+damaged file and its answer is the expected one (tags `corr mut`, no specification answer); the query
+part of a case (`pbd` body ids) is kept.  The readers return `None` where they used to panic (C18 fixes),
+so every way the model does not return a value (`none`, `panic`, `diverges`) is the answer `none` here.
+Where the model leaves its modelled part on a damaged file (`unmodelled`: a layer group whose damaged
+layer count sends the reader into the layer parser, a skeleton container with animation bindings) there is
+no answer to compare with: the next seeds are tried instead (`redraw`).
+-/
 namespace Physis.Driver.C16
 open Physis Physis.Proto
+
+/-- damage parameter of the `mut` family: seed and number of bytes -/
+abbrev Dmg := Option (UInt64 × Nat)
+
+/-- the damaged file and the model's outcome on it; `unmodelled` ⇒ the next seed (at most `n` times,
+then the undamaged file) -/
+def redraw {α} (run : Bytes → Outcome α) (file : Bytes) (k : Nat) (bias : Nat := 256) : Nat → UInt64 → Bytes × Outcome α
+  | 0, _ => (file, run file)
+  | n + 1, seed =>
+    let f := Mutate.mutate file seed k bias
+    match run f with
+    | .unmodelled => redraw run file k bias n (seed + 1)
+    | o => (f, o)
+
+/-- answer of a `mut` case: a value or `none` (`bad-case` if the model has no opinion even on the
+undamaged file, which no generated case does) -/
+def mutOutcome {α} (f : α → String) : Outcome α → Option String
+  | .ok v => some ("some " ++ f v)
+  | .unmodelled => none
+  | _ => some "none"
 
 /-! ### field parsing (malformed ⇒ `none` ⇒ `bad-case`) -/
 
@@ -51,13 +85,21 @@ def cycleTo (pat : Bytes) (n : Nat) : Bytes :=
 def showRows (rows : List (List UInt32)) : String :=
   join ";" (rows.map fun r => join "," (r.map fun w => toString w.toNat))
 
-def cmpCase (pat rows tail : String) : Option String := do
+def cmpCase (pat rows tail : String) (dmg : Dmg := none) : Option String := do
   let pat ← Bytes.ofHexFast pat
   let rows ← (items ";" rows).mapM u32List?
   let tail ← Bytes.ofHexFast tail
   let f : Spec.Cmp.File := ⟨cycleTo pat Spec.Cmp.headerSize, rows, tail⟩
   if !(decide (Spec.Cmp.WF f)) then none
   let file := Spec.Cmp.encode f
+  if let some (seed, k) := dmg then
+    -- the 0x2A800 bytes in front of the table are never read: three seeds out of four damage only
+    -- what lies behind them (rows and trailing bytes), the fourth any byte of the file
+    let body := file.drop Spec.Cmp.headerSize
+    let file := if seed % 4 == 0 || body.isEmpty then Mutate.mutate file seed k
+      else file.take Spec.Cmp.headerSize ++ Mutate.mutate body seed k
+    let model ← mutOutcome showRows (Cmp.fromExisting file)
+    return answer ("cmp " ++ Bytes.toHex file) model ["corr", "mut"]
   pure (answer ("cmp " ++ Bytes.toHex file) ("some " ++ showRows f.rows) []
     (some (showOutcome showRows (Cmp.fromExisting file))))
 
@@ -72,9 +114,13 @@ def showOpt {α} (f : α → String) : Option α → String
   | some v => "some " ++ f v
   | none => "none"
 
-def teraParse (version ps clip unk positions : String) : Option String := do
+def teraParse (version ps clip unk positions : String) (dmg : Dmg := none) : Option String := do
   let f : Spec.Tera.File := ⟨← u32? version, ← u32? ps, ← u32? clip, ← u32? unk, ← (items "," positions).mapM (pair? u16?)⟩
   let file := Spec.Tera.encode f
+  if let some (seed, k) := dmg then
+    -- even seeds: half of the damage inside the 20 header bytes (plate count, plate size)
+    let file := Mutate.mutate file seed k (if seed % 2 == 0 then 20 else 256)
+    return answer ("tera_parse " ++ Bytes.toHex file) (showOpt showModelPlates (Tera.fromExisting file)) ["corr", "mut"]
   -- the specification only speaks about exactly representable plate centres
   let exp ← Spec.Tera.plates f
   pure (answer ("tera_parse " ++ Bytes.toHex file) ("some " ++ showSpecPlates exp) []
@@ -123,9 +169,14 @@ def bindOutcome {α β} (o : Outcome α) (f : α → Outcome β) : Outcome β :=
   | .diverges => .diverges
   | .unmodelled => .unmodelled
 
-def layerCase (op a b c name : String) : Option String := do
+def layerCase (op a b c name : String) (dmg : Dmg := none) : Option String := do
   let g ← layerGroup? a b c name
   let gm : Layer.Group := ⟨g.fileId, g.chunkId, g.layerGroupId, g.name⟩
+  if let some (seed, k) := dmg then
+    if op != "layer_parse" then none
+    -- half of the damage inside the 36 bytes of file and chunk header, the rest anywhere (the name)
+    let (file, o) := redraw Layer.fromExisting (Spec.Layer.encode g) k 36 16 seed
+    return answer ("layer_parse " ++ Bytes.toHex file) (← mutOutcome showGroupM o) ["corr", "mut"]
   match op with
   | "layer_parse" =>
     let file := Spec.Layer.encode g
@@ -161,13 +212,27 @@ def showBonesS (l : List Spec.Pbd.Bone) : String :=
 def showBonesM (l : List Pbd.Bone) : String :=
   join "+" (l.map fun b => Bytes.toHex b.name ++ "/" ++ join "," (b.deform.map fun w => toString w.toNat))
 
+/-- bone names as the code returns them: every byte pushed as a `char` (Latin-1), printed as UTF-8;
+the identity on the ASCII names of well-formed files -/
+def showBonesLatin1 (l : List Pbd.Bone) : String :=
+  showBonesM (l.map fun b => ⟨Layer.latin1ToUtf8 b.name, b.deform⟩)
+
 def pbdCase (its lks fromS toS : String)
-    (enc : Spec.Pbd.File → Option Bytes := fun f => some (Spec.Pbd.encode f)) : Option String := do
+    (enc : Spec.Pbd.File → Option Bytes := fun f => some (Spec.Pbd.encode f)) (dmg : Dmg := none) : Option String := do
   let f : Spec.Pbd.File := ⟨← (items ";" its).mapM item?, ← (items ";" lks).mapM link?⟩
   let a ← u16? fromS
   let b ← u16? toS
   if !(decide (Spec.Pbd.WFTree f) && decide (Spec.Pbd.WFLayout f)) then none
   let file ← enc f
+  if let some (seed, k) := dmg then
+    -- even seeds: half of the damage inside the item and link tables of the canonical layout
+    -- (4 + 12 n + 8 n bytes); odd seeds: inside the first 256 bytes
+    let file := Mutate.mutate file seed k (if seed % 2 == 0 then 4 + 20 * f.items.length else 256)
+    let model ← match Pbd.fromExisting file with
+      | .ok h => mutOutcome showBonesLatin1 (Pbd.getDeformMatrices h a b)
+      | .unmodelled => none
+      | _ => some "file-none"
+    return answer s!"pbd {Bytes.toHex file} {a.toNat} {b.toNat}" model ["corr", "mut"]
   let model := match Pbd.fromExisting file with
     | .ok h => showOutcome showBonesM (Pbd.getDeformMatrices h a b)
     | o => "file-" ++ showOutcome (fun _ => "") o
@@ -273,10 +338,15 @@ def showSkelS (l : List Bone) : String :=
 def showSkelM (l : List Havok.Bone) : String :=
   join ";" (l.map fun b => s!"{Bytes.toHex b.name}:{b.parent}:{showTriple b.position}:{showQuad b.rotation}:{showTriple b.scale}")
 
-def skelAnswer (h : Spec.Sklb.Header) (p : Enc) (f : TagFile) : Option String := do
+def skelAnswer (h : Spec.Sklb.Header) (p : Enc) (f : TagFile) (dmg : Dmg := none) : Option String := do
   if !wf f then none
   let bones ← bonesOf f
   let file := Spec.Sklb.encode h (encode p f)
+  if let some (seed, k) := dmg then
+    -- the model with the reader's bound on the number of struct-array elements (`Havok.readBounded`):
+    -- a damaged count can trip it
+    let (file, o) := redraw Sklb.fromExistingBounded file k 256 16 seed
+    return answer ("skel " ++ Bytes.toHex file) (← mutOutcome showSkelM o) ["corr", "mut"]
   let tags := (if usesUnimplemented [] f then ["kf:havok-unimplemented-member-kind"] else []) ++
     (if guardTrips p f then ["kf:havok-array-length-guard"] else []) ++
     (if usesWideInt f then ["kf:havok-int-beyond-i32"] else [])
@@ -284,11 +354,11 @@ def skelAnswer (h : Spec.Sklb.Header) (p : Enc) (f : TagFile) : Option String :=
     (some (showOutcome showSkelM (Sklb.fromExisting file))))
 
 /-- an arbitrary tag file (types and objects in file order) -/
-def skelCase (ver hdr gap reuse width its : String) : Option String := do
+def skelCase (ver hdr gap reuse width its : String) (dmg : Dmg := none) : Option String := do
   let h ← header? ver hdr gap
   let p : Enc := ⟨← reuse.toNat?, ← width.toNat?⟩
   let f ← (items ";" its).mapM tagItem?
-  skelAnswer h p f
+  skelAnswer h p f dmg
 
 def boneRec? (s : String) : Option BoneRec :=
   match s.splitOn ":" with
@@ -303,18 +373,36 @@ def boneRec? (s : String) : Option BoneRec :=
   | _ => none
 
 /-- the standard file `Spec.HavokTag.stdFile` of `c16_skeleton` -/
-def skelStdCase (ver hdr gap reuse width name vname kind bones : String) : Option String := do
+def skelStdCase (ver hdr gap reuse width name vname kind bones : String) (dmg : Dmg := none) : Option String := do
   let h ← header? ver hdr gap
   let p : Enc := ⟨← reuse.toNat?, ← width.toNat?⟩
   let s : Skel := ⟨← hex? name, ← hex? vname, ← int? kind, ← (items ";" bones).mapM boneRec?⟩
-  skelAnswer h p (stdFile s)
+  skelAnswer h p (stdFile s) dmg
 
 end Skel
+
+/-- the ops of the `mut` family (`none` ⇒ `bad-case`) -/
+def handleMut (dmg : Dmg) (fs : List String) : Option String :=
+  match fs with
+  | ["cmp", pat, rows, tail] => cmpCase pat rows tail dmg
+  | ["tera_parse", v, ps, clip, unk, positions] => teraParse v ps clip unk positions dmg
+  | ["pbdl", its, lks, a, b, stored, reserved, trailer] =>
+    pbdCase its lks a b (C16Pbd.placedEncoder stored reserved trailer) dmg
+  | ["pbd", its, lks, a, b] => pbdCase its lks a b (dmg := dmg)
+  | ["skel", ver, hdr, gap, reuse, width, its] => skelCase ver hdr gap reuse width its dmg
+  | ["skelstd", ver, hdr, gap, reuse, width, name, vname, kind, bones] =>
+    skelStdCase ver hdr gap reuse width name vname kind bones dmg
+  | ["layer_parse", a, b, c, name] => layerCase "layer_parse" a b c name dmg
+  | _ => none
 
 /-- one case line in, one answer line out (see `Base/Proto.lean`) -/
 def handle (line : String) : String :=
   let r : Option String :=
     match fields line with
+    | "mut" :: seed :: k :: rest =>
+      match seed.toNat?, k.toNat? with
+      | some s, some k => handleMut (some (s.toUInt64, k)) rest
+      | _, _ => none
     | ["cmp", pat, rows, tail] => cmpCase pat rows tail
     | ["tera_parse", v, ps, clip, unk, positions] => teraParse v ps clip unk positions
     | ["tera_rt", positions] => teraRoundtrip positions
